@@ -260,7 +260,20 @@ func unquotedContent(src string) string {
 func CheckC20Text(c *Ctx, buf string, pairs [][2]int) {
 	c.Journal("position", buf)
 	lines := strings.Split(buf, "\n")
-	for _, pe := range pairs {
+	// one File shared by all pairs of this text, visited in an order that goes forwards and backwards
+	shared := &token.File{FilePath: FilePath, Buffer: buf}
+	order := make([]int, 0, 2*len(pairs))
+	for i := range pairs {
+		order = append(order, i)
+	}
+	for i := len(pairs) - 1; i >= 0; i-- {
+		order = append(order, i)
+	}
+	for k := 0; k+1 < len(pairs); k += 2 {
+		order = append(order, len(pairs)-1-k/2, k/2)
+	}
+	for _, oi := range order {
+		pe := pairs[oi]
 		p, e := pe[0], pe[1]
 		c.Eval()
 		var pos *token.Position
@@ -294,6 +307,20 @@ func CheckC20Text(c *Ctx, buf string, pairs [][2]int) {
 		if pos.Line != wl || pos.Column != wc || pos.EndLine != el || pos.EndColumn != ec || int(pos.Pos) != p || int(pos.End) != e || pos.FilePath != FilePath {
 			c.Violate("c20:position-fields", "position", buf, fmt.Sprintf("%s: Position = %d:%d-%d:%d [%d,%d], want %d:%d-%d:%d", id, pos.Line, pos.Column, pos.EndLine, pos.EndColumn, pos.Pos, pos.End, wl, wc, el, ec))
 			continue
+		}
+		// the same File object serves many calls (as it does for the errors of one parse): positions going forwards and
+		// backwards, jumping back to the start of a line after a later line
+		{
+			var l2, c2 int
+			var pos2 *token.Position
+			if pv, _ := callSUT(func() {
+				pos2 = shared.Position(token.Pos(p), token.Pos(e))
+				l2, c2 = shared.ResolvePos(token.Pos(p))
+			}); pv != nil {
+				c.Violate("c20:position-panic-shared-file:"+PanicClass(pv), "position", buf, fmt.Sprintf("%s on a File that already served other calls: panic %v", id, pv))
+			} else if pos2 == nil || pos2.Line != wl || pos2.Column != wc || pos2.EndLine != el || pos2.EndColumn != ec || l2 != wl || c2 != wc || pos2.Source != pos.Source {
+				c.Violate("c20:position-depends-on-earlier-calls", "position", buf, fmt.Sprintf("%s on a File that already served other calls: %+v (ResolvePos %d:%d), a fresh File gives %d:%d-%d:%d", id, pos2, l2, c2, wl, wc, el, ec))
+			}
 		}
 		if want := fmt.Sprintf("%s:%d:%d", FilePath, wl+1, wc+1); pos.String() != want {
 			c.Violate("c20:position-string", "position", buf, fmt.Sprintf("%s: String() = %q, want %q", id, pos.String(), want))
